@@ -109,7 +109,7 @@ Definition shape_of (op : bytes) (args : list val) : shape :=
   else if any_of op ["d.pymd"; "d.pyo"; "d.pisoywd"; "d.pdays"; "d.psucc"; "d.ppred"; "ar.opdasg"; "d8.pnthwd"]%string then SDate
   else if any_of op ["ar.opnasg"; "ar.stdasg"; "ar.opnoff"; "d8.ndt.opaddm"; "d8.ndt.opsubm"]%string then SNdt
   else if any_of op ["ar.noff"; "ndt.twith"]%string then SOpt SNdt
-  else if any_of op ["ar.zstdasg"; "ar.opzoff"; "z.opmonths"; "z.pfromlocal"]%string then SDtz
+  else if any_of op ["ar.zstdasg"; "ar.opzoff"; "z.opmonths"; "z.opdays"; "z.pfromlocal"]%string then SDtz
   else if any_of op ["ar.opzdiffref"; "td.opaddasg"; "td.opsubasg"; "td.sumv"]%string then STd
   else if any_of op ["t.phms"; "t.phms_milli"; "t.phms_micro"; "t.phms_nano"; "t.pnsfm"]%string then STime
   else if any_of op ["z.peast"; "z.pwest"]%string then SOff
@@ -218,7 +218,7 @@ Definition panicking_by_contract (op : bytes) : bool :=
              "t.addstd"; "t.substd"; "t.addstd_assign"; "t.substd_assign"; "t.addoff"; "t.suboff";
              "ndt.opadd"; "ndt.opsub"; "ndt.addstd"; "ndt.substd"; "ndt.addstd_assign"; "ndt.substd_assign"; "d8.opaddm"; "d8.opsubm";
              "td.opaddasg"; "td.opsubasg"; "td.sumv"; "ar.opdasg"; "ar.opnasg"; "ar.stdasg"; "ar.zstdasg"; "ar.opzdiffref";
-             "ar.opnoff"; "ar.opzoff"; "z.opmonths"; "d8.ndt.opaddm"; "d8.ndt.opsubm"]%string
+             "ar.opnoff"; "ar.opzoff"; "z.opmonths"; "z.opdays"; "d8.ndt.opaddm"; "d8.ndt.opsubm"]%string
   (* deprecated panicking constructors / accessors *)
   || any_of op ["ts.tzp"; "ts.tzmsp"; "ts.naive_from"; "ts.ofns"; "ts.naive_ofns";
                 "d.pymd"; "d.pyo"; "d.pisoywd"; "d.pdays"; "d.psucc"; "d.ppred";
